@@ -321,7 +321,7 @@ for _id in ("C05", "C06", "C07", "C13"):
     CHECKS[_id]["text"] = CHECKS[_id]["text"] + (
         " (Skeleton tie, as refined: the protocol-level functions are compared through Skel.lite - helper calls, table accesses and "
         "conditionals with nothing left inside are dropped, everything else including what is returned stays - the function set is the set "
-        "of functions with protocol content, select clauses are sorted, locals are numbered per condition, an inverted early return is written in one canonical form; 52 of 55 recorded harmless "
+        "of functions with protocol content, select clauses are sorted, locals are numbered per condition, an inverted early return is written in one canonical form; 53 of 55 recorded harmless "
         "rewrites are quiet.)")
 
 CHECKS["C17"]["text"] = CHECKS["C17"]["text"].replace(
